@@ -1846,13 +1846,20 @@ class Pipeline:
             if output_names is None
             else {pipeline.node_mapping[n] for n in output_names}  # type: ignore[misc]
         )
-        between = _find_nodes_between(pipeline.graph, input_nodes, output_nodes)
+        if output_names is None:
+            # Without explicit outputs, only the leaf nodes downstream of the inputs are computed
+            downstream: set[Any] = set()
+            for input_node in input_nodes:
+                downstream.update(nx.descendants(pipeline.graph, input_node))
+            output_nodes = {f for f in output_nodes if f in downstream}
+        between = _find_nodes_between(pipeline.graph, inputs, output_nodes)
         drop = [f for f in pipeline.functions if f not in between]
         for f in drop:
             pipeline.drop(f=f)
 
         if inputs is not None:
             new_root_args = set(pipeline.topological_generations.root_args)
+            new_root_args -= set(pipeline.defaults)
             if not new_root_args.issubset(inputs):
                 outputs = {f.output_name for f in pipeline.functions}
                 msg = (
@@ -2118,17 +2125,24 @@ def _traverse_graph(
 
 def _find_nodes_between(
     graph: nx.DiGraph,
-    input_nodes: set[Any],
+    inputs: set[str] | None,
     output_nodes: set[Any],
 ) -> set[Any]:
-    reachable_from_inputs = set()
-    for input_node in input_nodes:
-        reachable_from_inputs.update(nx.descendants(graph, input_node))
-    reachable_to_outputs = set()
-    for output_node in output_nodes:
-        reachable_to_outputs.update(nx.ancestors(graph, output_node))
-    reachable_to_outputs.update(output_nodes)
-    return reachable_from_inputs & reachable_to_outputs
+    """Functions needed for `output_nodes`: go backwards, stop where all names on an edge are provided."""
+    between: set[Any] = set()
+    stack = list(output_nodes)
+    while stack:
+        node = stack.pop()
+        if node in between:
+            continue
+        between.add(node)
+        for pred, _, data in graph.in_edges(node, data=True):
+            if not isinstance(pred, PipeFunc):
+                continue
+            if inputs is not None and all(arg in inputs for arg in at_least_tuple(data["arg"])):
+                continue  # provided by the user, so `pred` is not needed for this edge
+            stack.append(pred)
+    return between
 
 
 @dataclass(frozen=True, slots=True)
